@@ -285,8 +285,8 @@ def run(ctx):
                         continue                # error translation paths: their extent differs (swapbytesinbits can raise ValueError, swapbytes cannot)
                     row = []
                     for e in p.events:
-                        if e.kind in ("TRY", "CATCH", "ENDCATCH"):
-                            continue
+                        if e.kind in ("TRY", "CATCH", "ENDCATCH", "RETURN"):
+                            continue            # (the outcome is appended below; the return of a helper S ran in place is not an effect)
                         sig = e.sig()
                         if e.kind == "RAISE":
                             d = dict(sig[1])
